@@ -12,5 +12,6 @@ CONSTANTS
   DEV_CreateThroughLink = FALSE
   DEV_AbsInside = TRUE
   DEV_DirThroughLink = FALSE
+  DEV_WalkRawName = FALSE
   DEV_LinkRawName = FALSE
 CHECK_DEADLOCK FALSE
